@@ -24,11 +24,37 @@ pub fn spec_for(prop: &str) -> Option<Spec> {
         "C03" => Spec { gen: gen_c03, quick_runs: 40_000, thorough_runs: 2_000_000 },
         "C15" => Spec { gen: crate::settable::generate, quick_runs: 30_000, thorough_runs: 1_500_000 },
         "C17" => Spec { gen: crate::refs::generate, quick_runs: 20_000, thorough_runs: 1_000_000 },
+        "C16" => Spec { gen: gen_c16, quick_runs: 4_000, thorough_runs: 200_000 },
         _ => return None,
     })
 }
 
 pub fn execute(plan: &Plan, ctx: &mut Ctx) {
+    execute_world(plan, ctx);
+    if plan.prop == "C16" {
+        // in the C16 plan family every oracle failure or panic is a scratch-slot / bounds symptom
+        let extra: Vec<crate::core::Violation> = ctx
+            .violations
+            .iter()
+            .filter(|v| v.prop != "C16")
+            .map(|v| crate::core::Violation {
+                prop: "C16".into(),
+                oracle: "scratch_or_bounds".into(),
+                comp: format!("{}:{}", v.comp, v.oracle),
+                detail: v.detail.clone(),
+                op_index: v.op_index,
+            })
+            .collect();
+        let mut seen = std::collections::BTreeSet::new();
+        for v in extra {
+            if seen.insert(v.sig()) {
+                ctx.violations.push(v);
+            }
+        }
+    }
+}
+
+fn execute_world(plan: &Plan, ctx: &mut Ctx) {
     match plan.world.as_str() {
         "node" => crate::node_oracles::execute(plan, ctx),
         "device" => crate::dev_oracles::execute(plan, ctx),
@@ -56,5 +82,12 @@ fn gen_c03(prop: &str, tier: crate::core::Tier, rng: &mut crate::rng::Rng, seed:
         0 | 1 => crate::comb::generate(prop, tier, rng, seed, run),
         2 => crate::dev_gen::generate(prop, tier, rng, seed, run / 4),
         _ => crate::datumop::generate(prop, tier, rng, seed, run / 4),
+    }
+}
+
+fn gen_c16(prop: &str, tier: crate::core::Tier, rng: &mut crate::rng::Rng, seed: u64, run: u64) -> Plan {
+    match run % 4 {
+        0 | 1 | 2 => crate::comb::gen_c16(prop, tier, rng, seed, run / 4 * 3 + run % 4),
+        _ => crate::dev_gen::gen_c16(prop, tier, rng, seed, run / 4),
     }
 }
